@@ -4,7 +4,7 @@ import re
 
 CLAIMED = True
 LEVEL = 'proof'
-LEVEL_TEXT = ('Proof: 13 Coq theorems over the Gallina model of ImageRaw / ContiguousPixels / SubImage / Image '
+LEVEL_TEXT = ('Proof: 14 Coq theorems over the Gallina model of ImageRaw / ContiguousPixels / SubImage / Image '
               '(coq/Model/Imageraw.v, line-by-line incl. the raw load for all 7 raw widths x 2 data orders, the saturating '
               'nth() of RawDataIterator, the remaining_x/remaining_y/row_skip state machine as the list it yields, the five '
               'rejection tests of draw_sub_image, SubImage::new = intersection with the parent box, nested re-basing, '
@@ -15,7 +15,7 @@ LEVEL_TEXT = ('Proof: 13 Coq theorems over the Gallina model of ImageRaw / Conti
               'the drawable box and its colour stream is the pixels in row-major order with exactly w*h items (stream_is_pixels, '
               'stream_exact); rendering Image(d,o) sets q to pixel(q-o) inside the box and touches nothing else '
               '(image_draw_spec); sub_image(area) shows the parent pixels inside area intersected with the parent box '
-              '(sub_image_spec); nested sub images compose (sub_sub_compose); with_center centres (with_center_spec). '
+              '(sub_image_spec); nested sub images compose (sub_sub_compose, d_pixel_root: any nesting depth shows the root pixel() at the accumulated offset); with_center centres (with_center_spec). '
               'The model is tied to the code by running the extracted model and the real library on the same inputs on every run.')
 LEVEL_NOTE = ('Trusted: Coq kernel, extraction (ExtrOcamlBasic), OCaml/Rust drivers. The hand-written model is validated by '
               'differential testing (pixel maps, call log, number of colours a draining target pulls) and by an independent '
